@@ -47,6 +47,14 @@ CHECKS = {
          "Generated piece lists (0..8 pieces, 0..4 fragments, lengths 0..600): output equals the reference PAE, parses back to the same list (injectivity), streaming writers see the same bytes, boundary shifts always change the output.",
          "Back-end digest/MAC adapters are covered through C03's bit-exact comparison.",
          "property-based testing (proptest): reference encoder + inverse parser", "DESIGN.md §5 C15"),
+ "C09": ("pv-harness", "exploration",
+         "Exhaustive enumeration of the final base64 block (all ASCII strings of length <= 3, all length-4 strings over alphabet + hostile symbols, after 0/1/2 full blocks) and of every byte-sequence length 0..300, differentially against a strict table-driven reference codec; plus proptest over every FromStr/Display/serde triple of every back end with edit scripts and arbitrary strings against the strict grammar, with re-serialisation and serde-equivalence oracles.",
+         "The sub-space of final blocks is enumerated completely; longer strings and the typed parsers are sampled.",
+         "exhaustive enumeration + property-based differential testing (proptest) against a strict reference decoder/grammar", "DESIGN.md §5 C09"),
+ "C10": ("pv-harness", "exploration",
+         "Complete ordered-pair matrix of (back end, kind) parsers over library-produced strings of every kind with the expectation computed from the specification's header table; header rewriting of authenticated blobs must fail to unwrap.",
+         "Source strings per kind are sampled (5 quick / 50 thorough per back end); the parser matrix itself is complete.",
+         "enumerated cross-acceptance matrix over generated values, header-table oracle", "DESIGN.md §5 C10"),
 }
 
 NOT_APPLICABLE = []  # filled while properties are still being built
